@@ -134,9 +134,11 @@ static void one_dimensional(unsigned long long& unit)
 			ld kap = kappa(fam, iv.first, iv.second);
 			if(kap > 1e6L || fabsl(ex) < 1e-6L * fabsl((ld)iv.second - iv.first)) { mc::count("cases_skipped_integral_vanishes", 1); continue; }
 			for(auto& m : METHODS)
-				for(int par : {0, 1})
+				for(int par : {0, 1, 2, 3})
 				{
-					int mp = par == 0 ? 0 : (m == "Gauss-Kronrod" ? 12 : m == "Gauss-Legendre_2" ? 64 : 7);
+					// explicit parameters: for Gauss-Kronrod it is the refinement depth and for Gauss-Legendre_2 the node count (values that keep
+					// the method's accuracy: 12 and 64/128); the other four methods take no parameter and must be as accurate with 1, 2 or 7 as with 0
+					int mp = par == 0 ? 0 : (m == "Gauss-Kronrod" ? (par == 1 ? 12 : par == 2 ? 8 : 14) : m == "Gauss-Legendre_2" ? (par == 1 ? 64 : par == 2 ? 128 : 48) : (par == 1 ? 7 : par == 2 ? 1 : 2));
 					std::string key = fam.name + ",a=" + mc::dec(iv.first) + ",b=" + mc::dec(iv.second) + ",method=" + m + ",param=" + std::to_string(mp);
 					auto f = [&](double x) { return (double)fam.f(x); };
 					double v = 0, vr = 0, v0 = 1;
